@@ -11,7 +11,8 @@ def main (args : List String) : IO Unit := do
       let bs ← beats 6 0
       let ws ← bs.mapM fun b => do
         let k ← below 6
-        let len : Rat := if k = 0 then 1/48 else if k = 1 then 1/3 else if k = 2 then 4 else ((← below 200) : Nat) / 48 + 1/96
+        let r ← below 200
+        let len : Rat := if k = 0 then 1/48 else if k = 1 then 1/3 else if k = 2 then 4 else ((r : Nat) : Rat) / 48 + 1/96
         pure (b, len)
       let m := Simfile.coalesceWarps ws
       pure (if GenCode.coalesceWarps ws ≠ [(m.1, Tag.warp), (m.2, Tag.warpEnd)] then some (showPairs ws) else none)) ]
